@@ -63,6 +63,7 @@ class VChild:
         self.got_sigint = False
         self.future_id = None
         self.doomed = False
+        self.sigterm_handled = False  # the worker installed its own SIGTERM disposition
         self.self_killed = False      # dies by its own hand after part of its script (no result)
         self.linger = False           # never exits by itself after its script (a left-over non-daemon thread)
 
@@ -629,6 +630,9 @@ class VSignal:
         if w.current_child is not None:
             if signum == self.SIGINT and handler == self.SIG_IGN:
                 w.current_child.sigint_ignored = True
+            if signum == self.SIGTERM and handler not in (self.SIG_DFL, None):
+                # the worker handles (or ignores) SIGTERM itself: terminate() no longer ends it at once
+                w.current_child.sigterm_handled = True
             return self.SIG_DFL
         w.record('parent-signal', signum, handler)
         return self.SIG_DFL
@@ -756,6 +760,9 @@ class VWorld:
         self.log_mode = log_mode
         self.die_labels = frozenset(die_labels)
         self.die_exit0 = die_exit0
+        # how a dying worker ends: False = SIGKILL, True = exit status 0, an int = that exit code
+        # (negative: killed by that signal number, which need not have a name - real-time signals)
+        self.die_code = -9 if die_exit0 is False else (0 if die_exit0 is True else int(die_exit0))
         self.max_idle = max_idle
         self.liveness_choice = liveness_choice
         self.terminate_choice = terminate_choice
@@ -870,11 +877,18 @@ class VWorld:
             # handlers, only the default stream handler that importing labtech installs
             import io
             lt_logger.handlers = [logging.StreamHandler(io.StringIO())]
+            # ... and the levels are the import-time defaults, whatever the caller configured
+            lt_logger.setLevel(logging.INFO)
+            root_logger.setLevel(logging.WARNING)
+            root_logger.handlers = []
             self.current_child = child      # unpickling happens in the child
             try:
                 kwargs = pickle.loads(blob)
             except BaseException:
                 lt_logger.handlers = saved_handlers
+                lt_logger.setLevel(saved_level)
+                root_logger.handlers = saved_root[0]
+                root_logger.setLevel(saved_root[1])
                 raise
             finally:
                 self.current_child = None
@@ -1026,7 +1040,7 @@ class VWorld:
                 return True
             child.state = 'killed'
             child.pc = len(child.script)
-            child.exitcode = 0 if self.die_exit0 else -9
+            child.exitcode = self.die_code
             child.death_observed_round = self.round
             self.record('killed', child.idx, child.task_key)
             for cb in self.on_killed:
@@ -1139,7 +1153,7 @@ class VWorld:
                 if ch.state == 'running' and getattr(ch, 'doomed', False):
                     ch.state = 'killed'
                     ch.pc = len(ch.script)
-                    ch.exitcode = 0 if self.die_exit0 else -9
+                    ch.exitcode = self.die_code
                     self.record('killed', ch.idx, ch.task_key)
                     for cb in self.on_killed:
                         cb(self, ch)
@@ -1206,6 +1220,9 @@ class VWorld:
         self.record(how, child.idx, child.task_key, child.state)
         if child.state != 'running':
             return
+        if how == 'terminate' and child.sigterm_handled:
+            self.record('sigterm-not-fatal', child.idx, child.task_key)
+            return                 # keeps running whatever its handler allows - it was not ended at once
         if self.terminate_choice and not getattr(child, 'doomed', False):
             opts = ['no-progress', 'finished-first']
             c = self.chooser.choose(2, ('terminate', child.task_key), fp=self.fp(), label_of=lambda i: opts[i])
